@@ -10,6 +10,7 @@ import (
 	"encoding/hex"
 	"fmt"
 	"hash"
+	"runtime"
 	"sort"
 	"strings"
 	"sync/atomic"
@@ -24,6 +25,30 @@ var execCounter uint64
 
 type crashSentinel struct{ at string }
 type exitSentinel struct{ code int }
+
+// deathNote: how the process of the code under test ended inside a call (simulated kill, or its own exit).
+type deathNote struct {
+	crash bool
+	at    string
+	code  int
+}
+
+// die ends the code under test right here. Under the controller supervisor (which runs it in a goroutine of
+// its own and sets goexit) that is runtime.Goexit: unlike a panic it cannot be caught by a recover() in
+// the code under test - a process that is killed does not get to handle it either. Deferred functions still
+// run; any seam call they make is refused the same way. The provider-level driver keeps the panic sentinel.
+func (w *World) die(n deathNote) {
+	if !w.goexit {
+		if n.crash {
+			panic(crashSentinel{at: n.at})
+		}
+		panic(exitSentinel{n.code})
+	}
+	if w.dead == nil {
+		w.dead = &n
+	}
+	runtime.Goexit()
+}
 
 type event struct {
 	at  time.Time
@@ -99,6 +124,8 @@ type World struct {
 	life     int
 	scan     *ScanRecord
 	gscan    *GroupScan
+	goexit   bool       // see die
+	dead     *deathNote // set once the code under test has been ended inside a call
 	occ      map[string]int
 	known    map[string]*KnownASG
 	lastGet  map[string]*v1.Node
@@ -192,6 +219,9 @@ func (w *World) asgOfCtx() string {
 }
 
 func (w *World) beginCall(op, target string) *Call {
+	if w.dead != nil {
+		runtime.Goexit() // a deferred function of the ended process trying to talk to the world
+	}
 	w.catchUp()
 	w.seq++
 	c := &Call{Seq: w.seq, T0: time.Now(), Group: w.ctx, Op: op, Target: target, Life: w.life}
@@ -201,6 +231,11 @@ func (w *World) beginCall(op, target string) *Call {
 		c.Scan = -1
 	}
 	w.stats.Calls[op]++
+	if w.gscan != nil && w.ctx != "" && w.gscan.Gauges == nil && isMutating(op) {
+		// what the code publishes about its view and its sums is read when it starts to act (or, if it does not
+		// act, when the scan returns): a gauge it keeps current while acting would otherwise be compared with the view
+		w.gscan.Gauges = readGauges(w.gscan.Group)
+	}
 	if asg := w.asgOfCtx(); asg != "" && (isMutating(op) && strings.HasPrefix(op, "asg.") || op == OpCreateFleet) {
 		c.Known = w.known[asg].clone()
 	}
@@ -308,7 +343,7 @@ func (w *World) drawFault(c *Call) string {
 		return FNone // the call then proceeds normally
 	case FCrashBefore:
 		w.endCall(c, false, "crash")
-		panic(crashSentinel{at: c.Op + " before"})
+		w.die(deathNote{crash: true, at: c.Op + " before"})
 	case FCrashAfter:
 		return FErrAfterCrash
 	}
@@ -369,7 +404,7 @@ func (w *World) endCall(c *Call, applied bool, errStr string) {
 	}
 	if c.Fault == FCrashAfter {
 		w.flushDescribeLines()
-		panic(crashSentinel{at: c.Op + " after"})
+		w.die(deathNote{crash: true, at: c.Op + " after"})
 	}
 }
 
